@@ -1,3 +1,4 @@
+import MesaModel.Gen.LayersTables
 /-
 Model of the two property-layer implementations of mesa (property C11, C18-layers):
 
@@ -74,17 +75,15 @@ inductive Out where
   | err (e : Err)
 deriving Repr, DecidableEq
 
-/-- every attribute of `Cell` / the dynamic `GridCell` class (`dir(grid.cell_klass)` without
-    layer descriptors): `add_property_layer` refuses these names (`hasattr(cell_klass, name)`) -/
+/-- every attribute of `Cell` / the dynamic `GridCell` class: `add_property_layer` refuses these names
+    (`hasattr(self.cell_klass, layer.name)`).  The list is not written by hand: it is the union of the names
+    the *source* gives the class (`Gen/LayersTables.lean`, extracted from `cell.py` / `grid.py` on every check:
+    `Cell.__slots__`, its methods, properties and class attributes, the dict of the dynamic `GridCell` class)
+    and of what Python gives any class; `Props/C11.lean` proves it equal to `dir(grid.cell_klass)` of the
+    running code. -/
 def reservedNames : List String :=
-  ["_agents", "_mesa_properties", "_neighborhood", "add_agent", "agents", "capacity", "connect",
-   "connections", "coordinate", "disconnect", "get_neighborhood", "is_empty", "is_full",
-   "neighborhood", "properties", "random", "remove_agent",
-   "__class__", "__delattr__", "__dict__", "__dir__", "__doc__", "__eq__", "__format__", "__ge__",
-   "__getattribute__", "__getstate__", "__gt__", "__hash__", "__init__", "__init_subclass__",
-   "__le__", "__lt__", "__module__", "__ne__", "__new__", "__reduce__", "__reduce_ex__",
-   "__repr__", "__setattr__", "__sizeof__", "__slots__", "__str__", "__subclasshook__",
-   "__weakref__"]
+  Gen.cellSlots ++ Gen.cellMethods ++ Gen.cellProperties ++ Gen.cellClassAttrs ++ Gen.gridCellDict ++
+    Gen.pythonImplied
 
 structure State where
   impl : Impl
